@@ -337,8 +337,11 @@ class UbxServerBase_(object):
 
             # Check if process could decode one or more frames
             # Loop exists when no more frames are to handle
-            cid, data = self.parser.packet()
-            if cid:
+            while True:
+                cid, data = self.parser.packet()
+                if not cid:
+                    break
+
                 if cid != self.cid_crc_error:
                     if logger.isEnabledFor(logging.DEBUG):
                         logger.debug(f'received expected frame {cid}')
